@@ -24,6 +24,7 @@ import (
 	"fmt"
 	"io"
 	"strings"
+	"unicode"
 )
 
 // a parser is used to parse the contents of a single .yang file.
@@ -178,7 +179,9 @@ Loop:
 	if p.errout.Len() == 0 {
 		return statements, nil
 	}
-	return nil, errors.New(strings.TrimSpace(p.errout.String()))
+	// Only the trailing line feed is dropped: the text starts with the name the
+	// source was given, which may itself begin with white space.
+	return nil, errors.New(strings.TrimRightFunc(p.errout.String(), unicode.IsSpace))
 }
 
 // push pushes tokens t back on the input stream so they will be the next
